@@ -160,8 +160,8 @@ fn main() {
                     other => { stats[3] += 1; println!("{}: GO MISMATCH stop={:?}\n--- got\n{}--- expected\n{}", c.name, other, out.stdout, expected); }
                 }
                 let rp = std::sync::Arc::new(gort::refi::RefProg::new(compiled.tast, compiled.genv));
-                let mut ctrl = gort::co::Seeded::new(gort::co::Strategy::Random, 1, vec![]);
-                let rout = gort::run_ref(&rp, &mut ctrl, 2_000_000);
+                let ctrl = gort::co::Seeded::new(gort::co::Strategy::Random, 1, vec![]);
+                let rout = gort::run_ref(&rp, ctrl, 2_000_000).0;
                 match &rout.stop {
                     gort::co::Stop::MainReturned if rout.stdout == expected => stats[4] += 1,
                     gort::co::Stop::Unsupported(w) => println!("{}: ref unsupported: {w}", c.name),
@@ -198,6 +198,59 @@ fn main() {
             for (k, v) in reasons { println!("{v:5} {k}"); }
             0
         }
+        "c09" => {
+            println!("VERIF_SEED={}", opts.seed);
+            warm_builtins(prng::mix(&[opts.seed, prng::purpose("warm")]));
+            props::c09::run(&opts)
+        }
+        "conc-show" => {
+            let i: u64 = args[2].parse().unwrap();
+            let mut p = prng::Prng::derive(opts.seed, i, "c09-program");
+            let cfg = genp::conc::ConcCfg::swarm(&mut p);
+            print!("{}", genp::conc::generate(&mut p, &cfg));
+            0
+        }
+        "conc-run" => {
+            let i: u64 = args[2].parse().unwrap();
+            let mut p = prng::Prng::derive(opts.seed, i, "c09-program");
+            let cfg = genp::conc::ConcCfg::swarm(&mut p);
+            let text = genp::conc::generate(&mut p, &cfg);
+            let mut files = world::Files::new();
+            files.insert("main.gom".into(), text.into_bytes());
+            let sb = world::Sandbox::new("concrun").unwrap();
+            let c = props::c09::compile_files(&sb, &files, 1).unwrap();
+            for (k, st) in gort::co::STRATEGIES.iter().enumerate() {
+                let t0 = std::time::Instant::now();
+                let out = gort::run_go(&c.gp, *st, k as u64, vec![], gort::DEFAULT_STEPS);
+                let t1 = t0.elapsed();
+                let ch = props::c09::check_schedule(&c.gp, &c.rp, *st, k as u64, vec![], gort::DEFAULT_STEPS);
+                println!("{:?}: go steps={} events={} goroutines={} stop={:?} go-time={:?} total={:?} verdict={:?}", st, out.steps, out.events.len(), out.goroutines, out.stop, t1, t0.elapsed(), match ch.verdict { props::c09::Verdict::Violates(m) => format!("VIOLATES {}", m.detail), v => format!("{v:?}") });
+            }
+            0
+        }
+        "conc-stats" => {
+            let n: usize = args.get(2).and_then(|x| x.parse().ok()).unwrap_or(200);
+            let sb = world::Sandbox::new("concstats").unwrap();
+            let mut ok = 0;
+            let mut reasons: std::collections::BTreeMap<String, usize> = Default::default();
+            for i in 0..n {
+                let mut p = prng::Prng::derive(opts.seed, i as u64, "c09-program");
+                let cfg = genp::conc::ConcCfg::swarm(&mut p);
+                let text = genp::conc::generate(&mut p, &cfg);
+                let mut files = world::Files::new();
+                files.insert("main.gom".into(), text.clone().into_bytes());
+                sb.materialise(&files);
+                let (sum, _c, _) = ops::run_main(&sb, &world::ProcSpec::default(), false);
+                if sum.class == "compiled" { ok += 1; } else {
+                    let key = format!("{}:{}:{}", sum.class, sum.kind, sum.diagnostics.first().cloned().unwrap_or(sum.message.clone()));
+                    if !reasons.contains_key(&key) && args.get(3).is_some() { println!("{text}\n=> {key}"); }
+                    *reasons.entry(key).or_insert(0) += 1;
+                }
+            }
+            println!("{ok}/{n} compile");
+            for (k, v) in reasons { println!("{v:5} {k}"); }
+            0
+        }
         "c13-child" => {
             let warm: u64 = args[2].parse().unwrap();
             let idx: Vec<usize> = args[3].split(',').filter_map(|x| x.parse().ok()).collect();
@@ -220,6 +273,7 @@ fn main() {
             let prop = file["property"].as_str().unwrap_or("").to_string();
             let reproduced = match prop.as_str() {
                 "C13" => props::c13::replay(&file),
+                "C09" => props::c09::replay(&file),
                 _ => {
                     eprintln!("HARNESS ERROR: no replay for property {prop}");
                     std::process::exit(2);
